@@ -791,6 +791,11 @@ func c16Gen(o *out, r *rng, tier string) {
 		emit(0, one("/a/{s1}", b))
 		emit(1, one("/a/{s1}", b))
 	}
+	// response_body selectors: a singular message field of the reply, or refused
+	for _, resp := range []string{"nest", "nest.deep", "s1", "zz", "rnest", "nest.zz", "rnest.deep", "nest.deep.x"} {
+		emit(0, []c01Method{{Svc: "S1", Name: "M", Bindings: []c01Binding{{Verb: "GET", Tmpl: "/a/{s1}", Resp: resp}}}})
+		emit(1, []c01Method{{Svc: "S1", Name: "M", Bindings: []c01Binding{{Verb: "POST", Tmpl: "/a", Body: "*", Resp: resp}, {Verb: "GET", Tmpl: "/b", Resp: "nest"}}}})
+	}
 	// additional bindings: fine, failing, nested
 	emit(0, []c01Method{{Svc: "S1", Name: "M", Bindings: []c01Binding{{Verb: "GET", Tmpl: "/a"}, {Verb: "POST", Tmpl: "/b", Body: "*"}}}})
 	emit(1, []c01Method{{Svc: "S1", Name: "M", Bindings: []c01Binding{{Verb: "GET", Tmpl: "/a"}, {Verb: "POST", Tmpl: "/b/{zz}"}}}})
@@ -824,6 +829,23 @@ func c16Gen(o *out, r *rng, tier string) {
 		emit(1, []c01Method{{Svc: "S1", Name: "M", Config: []c01Binding{{Verb: "*", Tmpl: "/verif.rt.S1/M"}, b}}})
 	}
 	emit(0, []c01Method{{Svc: "S1", Name: "M", Bindings: []c01Binding{{Verb: "*", Tmpl: "/verif.rt.S1/M"}, {Verb: "GET", Tmpl: "/ok/{s1}"}}}})
+	// a rule that repeats a binding its method already has (the implicit one, or the same verb and path
+	// twice) is validated like any other: bad selectors, in either order
+	for _, body := range []string{"zz", "nest.zz", "s1", "rnest", "nest"} {
+		emit(0, []c01Method{{Svc: "S1", Name: "M", Bindings: []c01Binding{{Verb: "*", Tmpl: "/verif.rt.S1/M", Body: body}}}})
+		emit(0, []c01Method{{Svc: "S1", Name: "M", Bindings: []c01Binding{{Verb: "GET", Tmpl: "/a/{s1}"}, {Verb: "GET", Tmpl: "/a/{s1}", Body: body}}}})
+		emit(1, []c01Method{{Svc: "S1", Name: "M", Bindings: []c01Binding{{Verb: "GET", Tmpl: "/a/{s1}", Body: body}, {Verb: "GET", Tmpl: "/a/{s1}"}}}})
+		emit(0, []c01Method{{Svc: "S1", Name: "M", Bindings: []c01Binding{{Verb: "GET", Tmpl: "/a/{s1}"}}, Config: []c01Binding{{Verb: "GET", Tmpl: "/a/{s1}", Resp: body}}}})
+	}
+	// a rule of one method on ANOTHER method's implicit /Service/Method path, declared before or after it
+	for _, v := range []string{"POST", "GET", "*"} {
+		for base := 0; base <= 1; base++ {
+			emit(base, []c01Method{{Svc: "S1", Name: "A", Bindings: []c01Binding{{Verb: v, Tmpl: "/verif.rt.S1/B"}}}, {Svc: "S1", Name: "B"}})
+			emit(base, []c01Method{{Svc: "S1", Name: "B"}, {Svc: "S1", Name: "A", Bindings: []c01Binding{{Verb: v, Tmpl: "/verif.rt.S1/B"}}}})
+			emit(base, []c01Method{{Svc: "S1", Name: "A", Bindings: []c01Binding{{Verb: v, Tmpl: "/verif.rt.S2/B"}}}, {Svc: "S2", Name: "B"}})
+			emit(base, []c01Method{{Svc: "S1", Name: "A", Config: []c01Binding{{Verb: v, Tmpl: "/verif.rt.S2/B"}}}, {Svc: "S2", Name: "B"}})
+		}
+	}
 	// long templates around the 64-token cap
 	for k := 28; k <= 33; k++ {
 		emit(0, one(strings.Repeat("/a", k), ""))
